@@ -385,6 +385,102 @@ def put_callers(prog, krate):
     return callers
 
 
+def error_discipline(ctx, prog):
+    """after a failed write nothing more is written and the failure is returned: otherwise a bounded sink that rejected one piece
+    but has room for a later, shorter one is left with bytes that are not a prefix of the encoding"""
+    from .. import l2
+    from ..absint import Fork, CallThen
+    from ..prims import err, ok, UNIT
+    base = l2.encoder_overrides()
+    ov = {}
+
+    def wrap(h, leaf=False):
+        def g(m, cfg, f, args, t):
+            r = h(m, cfg, f, args, t)
+            if r is NotImplemented or isinstance(r, (Fork, CallThen)):
+                return r
+            n = len(cfg.st.events)
+
+            def undo(s_):
+                # the failing primitive wrote nothing that counts (a prefix of its own bytes at most)
+                del s_.events[n - 1:]
+                s_.events.append(('SINKERR', (f.get('rpath') or f['path']).split('::')[-1]))
+            return Fork([(None, r), (undo, err(Atom('sink-error')))])
+        return g
+    for k, h in base.items():
+        ov[k] = wrap(h) if (k.startswith(l2.ENC) or k.endswith(('Encode::encode', 'EncodeBytes::encode_bytes'))) else h
+    n = 0
+    seen = set()
+    for im in prog.impls:
+        if im['trait'] != 'minicbor::encode::Encode' or im['krate'] != 'minicbor':
+            continue
+        ty = im['self_ty']
+        path = '<%s as minicbor::encode::Encode<C>>::encode' % ty
+        if path in seen:
+            continue
+        seen.add(path)
+        try:
+            r = l2.run_root(prog, path, ov)
+        except Abort as e:
+            ctx.fail_closed('S-ENC.err', 'Encode for %s cannot be interpreted with a failing sink: %s' % (ty, e))
+            continue
+        if r is None:
+            continue
+        inst, outs, m = r
+        n += 1
+        where = mir.loc(inst['sp'])
+        good = True
+        for o in outs:
+            evs = o.st.events
+            idx = [i for i, e in enumerate(evs) if e[0] == 'SINKERR']
+            if not idx:
+                continue
+            later = [e for e in evs[idx[0] + 1:] if e[0] == 'ITEM']
+            if later:
+                good = False
+                ctx.violation('S-ENC.err', '%s|writes-after-error' % ty, 'after a failed write (%s) the impl still writes %s: a bounded sink would be left with bytes that are not a prefix of the encoding' % (evs[idx[0]][1], tables.fmt_stream([e[1:] for e in later]) if hasattr(tables, 'fmt_stream') else later), where)
+                break
+            if o.kind == 'return' and l1.result_kind(o.value) == 'Ok':
+                good = False
+                ctx.violation('S-ENC.err', '%s|swallowed' % ty, 'a failed write (%s) is not reported: the impl returns Ok' % (evs[idx[0]][1],), where)
+                break
+        if good:
+            ctx.ok('S-ENC.err', ty)
+    ctx.floor('S-ENC.err', 'Encode impls', n, 80)
+    # the Encoder's own methods at byte level (several puts per head): same discipline
+    nm = 0
+    half = prog.feature('half')
+    for method in tables.ENC_METHODS:
+        if method == 'f16' and not half:
+            continue
+        try:
+            res = tables.enc_rows(prog, method)
+        except Abort as e:
+            ctx.fail_closed('S-ENC.err', 'Encoder::%s cannot be summarised: %s' % (method, e))
+            continue
+        if res is None:
+            continue
+        inst, rows, m = res
+        nm += 1
+        good = True
+        for r in rows:
+            evs = r.events
+            idx = [i for i, e in enumerate(evs) if e[0] == 'SINKERR']
+            if not idx:
+                continue
+            if any(e[0] == 'PUT' for e in evs[idx[0] + 1:]):
+                good = False
+                ctx.violation('S-ENC.err', 'Encoder::%s|writes-after-error' % method, 'Encoder::%s keeps writing after the sink refused a write' % method, mir.loc(inst['sp']))
+                break
+            if r.result == 'Ok':
+                good = False
+                ctx.violation('S-ENC.err', 'Encoder::%s|swallowed' % method, 'Encoder::%s returns Ok although the sink refused a write' % method, mir.loc(inst['sp']))
+                break
+        if good:
+            ctx.ok('S-ENC.err', 'Encoder::' + method)
+    ctx.floor('S-ENC.err', 'Encoder methods', nm, 25)
+
+
 def run(ctx):
     prog = load.program('core-full')
     ctx.rules_run.append('F-PUT: Write::write_all on the sink is called only by Encoder::put (+ the forwarding impl); put maps the sink error with Error::write only')
@@ -443,6 +539,8 @@ def run(ctx):
     cursor_fit(ctx, prog)
     ctx.rules_run.append('T-SINK.all: every other Write impl (forwarding &mut W, Vec<u8>, the std::io adapter, cursors) hands the whole buffer to an all-or-nothing sink operation exactly once before reporting success; partial-write APIs are violations')
     sink_forwarding(ctx, prog)
+    ctx.rules_run.append('S-ENC.err: every built-in Encode impl, interpreted with a sink (and nested Encode impls) that may fail at each call: nothing is written after the first failure and the failure is returned')
+    error_discipline(ctx, prog)
     ctx.rules_run.append('F-PANIC(encode): panic-site census over the encoding entry set; no unsafe in the write path')
     roots = [k for k, i in prog.insts.items() if is_encode_root(i)]
     reach0 = set(k for k in facts.reachable(prog, roots) if prog.get(k)['krate'] == 'minicbor')
